@@ -149,12 +149,27 @@ impl BlockWriter {
         }
 
         let mut offset: usize = 0;
+        let mut stalled = false;
         loop {
             let size = self.decoder.as_mut().unwrap().write(&pkt[offset..])?;
             self.decoder_read(writer, now)?;
             offset += size;
             if offset == pkt.len() {
                 break;
+            }
+
+            if size == 0 {
+                if stalled {
+                    // The decoder does not consume its input anymore
+                    if self.content_length_left == Some(0) {
+                        // All the announced content is written, ignore the end of the stream
+                        break;
+                    }
+                    return Err(FluteError::new("Decompression is stalled"));
+                }
+                stalled = true;
+            } else {
+                stalled = false;
             }
         }
         Ok(())
